@@ -445,6 +445,40 @@ fn check_emitters(run: &Run, cases: u64) {
     });
 }
 
+/// Scale: an index of more than 10 000 hunks (two index subdirectories) is written and listed in
+/// strictly increasing order too.
+fn many_hunks(run: &Run) {
+    let mut w = crate::history::many_hunks_world("c11big", run.seed);
+    let r = w.backup(crate::history::MANY_HUNKS_OPTS);
+    run.eval();
+    let replay = json!({"kind": "many_hunks"});
+    if !r.backup.as_ref().unwrap().clean() {
+        run.count("backups_not_clean", 1);
+    }
+    let raw = w.raw(false);
+    let own = raw.bands[&0].own_entries();
+    run.count("hunk_entries_decoded", own.len() as u64);
+    if let Some((a, b)) = first_disorder(own.iter().map(|e| e.apath.as_str())) {
+        run.violation("index-out-of-order", format!("written index of the 10 040-file tree has {a:?} before {b:?}"), replay);
+        return;
+    }
+    let l = cs::list(cs::local(&w.arch), Some(0), "/", &[]);
+    let Some(v) = l.value() else {
+        run.violation("listing-failed", l.describe(), replay);
+        return;
+    };
+    run.count("listed_entries", v.len() as u64);
+    if let Some((a, b)) = first_disorder(v.iter().map(|e| e.apath.as_str())) {
+        run.violation("listing-out-of-order", format!("listing of the 10 040-file version (10 041 hunks) has {a:?} before {b:?}"), replay);
+        return;
+    }
+    if v.len() != w.snap.len() {
+        run.violation("listing-wrong-set", format!("listing of the 10 040-file version has {} entries, the tree {}", v.len(), w.snap.len()), replay);
+        return;
+    }
+    run.count("listings_of_more_than_10000_hunks_checked", 1);
+}
+
 pub fn run(tier: Tier, replay: Option<Value>) -> i32 {
     let run = Run::new("C11", "exploration", tier, replay.clone());
     if let Some(r) = &replay {
@@ -457,6 +491,7 @@ pub fn run(tier: Tier, replay: Option<Value>) -> i32 {
             }
             Some("validity") => check_validity(&run, &[r["string"].as_str().unwrap().to_string()]),
             Some("emit") => check_emitters(&run, 1),
+            Some("many_hunks") => many_hunks(&run),
             _ => {}
         }
         return run.finish("replay", &[], None, &[]);
@@ -479,11 +514,11 @@ pub fn run(tier: Tier, replay: Option<Value>) -> i32 {
         check_order_exhaustive(&run, "a6", &p6);
     }
     check_random_pairs(&run, tier.pick(300_000, 3_000_000));
-    check_emitters(&run, tier.pick(400, 6000));
+    super::alongside(&run, "the many-hunks listing", || many_hunks(&run), || check_emitters(&run, tier.pick(400, 6000)));
     run.finish(
-        "validity: every string over a 13-component alphabet (incl. '', '.', '..', NUL, bytes below and above '/') up to the stated depth, with and without leading/trailing slash; order: all pairs and triples of valid paths over two alphabets (exhaustive) + random longer paths; emitters: generated trees walked, backed up with small hunks, decoded independently and listed; for every second tree two or three further backups are killed before a write (with even odds before the same write as the previous one) and every version, now stitched from up to four indexes, is listed again. Distinct non-trivial = distinct unordered pairs of different paths compared + distinct generated trees.",
+        "validity: every string over a 13-component alphabet (incl. '', '.', '..', NUL, bytes below and above '/') up to the stated depth, with and without leading/trailing slash; order: all pairs and triples of valid paths over two alphabets (exhaustive) + random longer paths; emitters: generated trees walked, backed up with small hunks, decoded independently and listed; for every second tree two or three further backups are killed before a write (with even odds before the same write as the previous one) and every version, now stitched from up to four indexes, is listed again; one tree of 10 040 files is backed up with one entry per hunk (two index subdirectories) and its index and listing checked the same way. Distinct non-trivial = distinct unordered pairs of different paths compared + distinct generated trees.",
         &["the documented order is as restated in oracle::apath_key (doc/format.md)", "snap/serde_json decode written hunks correctly"],
         Some(true),
-        &[("pairs_compared", 1000), ("triples_checked", 1000), ("validity_strings_checked", 1000), ("source_walks", 10), ("hunk_entries_decoded", 50), ("stitched_listings_checked", 50)],
+        &[("pairs_compared", 1000), ("triples_checked", 1000), ("validity_strings_checked", 1000), ("source_walks", 10), ("hunk_entries_decoded", 50), ("stitched_listings_checked", 50), ("listings_of_more_than_10000_hunks_checked", 1)],
     )
 }
